@@ -251,6 +251,28 @@ def rule_rec(tm, reach_ids):
         key = 'REC|%s' % label
         g = _has_depth_guard(prog, scc)
         names = sorted(prog.by_id[x].name.split('::')[-1] if not prog.by_id[x].impl_trait else prog.by_id[x].name for x in scc)
+        if label == 'tokenizer-lookahead':
+            # look-ahead recursion runs on a *copy* of the scanner (nothing is consumed), so its cost is not bounded by
+            # the input being used up: one recursive entry per activation is a chain (linear), two on one path
+            # re-scan the rest of the input twice per token: exponential time
+            fan = []
+            for bid in sorted(scc):
+                b = prog.by_id[bid]
+                sites = [c for c in b.live_calls if c.ruid in scc or any(t in scc for t in prog.generic_cb_targets.get((b.id, c.bb), []))
+                         or any(cu in scc for cu, calls in prog.closure_call_sites.items() if any(cc.body is b and cc.bb == c.bb for cc in calls))]
+                for x in sites:
+                    for y in sites:
+                        if x is not y and y.bb in b.reachable_after(x.bb):
+                            fan.append((b, x, y))
+                    if x.bb in b.reachable_after(x.bb):
+                        fan.append((b, x, x))
+            k2 = 'REC-FANOUT|%s' % label
+            if fan:
+                b, x, y = fan[0]
+                obs.append(bad('REC', k2, 'the look-ahead recursion is entered twice on one path in %s (%s at bb%d and %s at bb%d): every look-ahead re-scans the rest of the input twice, time doubles with every further name token — practically non-terminating' % (
+                    b.name, (x.rdef or x.callee or '?').split('::')[-1], x.bb, (y.rdef or y.callee or '?').split('::')[-1], y.bb), x.where(), body=b.name, bb=x.bb))
+            else:
+                obs.append(ok('REC', k2, 'every body of the look-ahead cycle enters it at most once per activation: a chain, not a tree'))
         if g:
             obs.append(ok('REC', key, 'recursive cycle of %d bodies passes a depth guard in %s' % (len(scc), g)))
         else:
